@@ -26,6 +26,7 @@ ASSUMPTIONS = [
     "documentation attributes (formula strings, legends, long_name) are not asserted",
 ]
 BUDGET = {"quick": 120, "thorough": 1500}
+JOBS = {"quick": 4, "thorough": 16}
 
 
 @st.composite
@@ -50,7 +51,7 @@ def cases(draw):
 
 
 def plan(tier):
-    n = 180 if tier == "quick" else 48000
+    n = 600 if tier == "quick" else 48000
     return [{"kind": "hyp", "name": "leaders", "strategy": cases(), "examples": n}]
 
 
